@@ -14,10 +14,12 @@ OPS = list(GROW) + ["pop_back", "pop_front", "rotate(True)", "rotate(False)", "r
                     "move_to_back(i)", "move_after(i,j)"]
 PAYLOADS = ["equal (distinct objects comparing equal): all lengths", "distinct: all but the longest length"]
 BOUNDS = {
-    "quick": {"families": [{"initial_size": 0, "history_len": 5, "max_nodes": 4}, {"initial_size": 3, "history_len": 4, "max_nodes": 4}],
+    "quick": {
+        "other_list": "extend() with / construction from ANOTHER DoublyLinkedList (0..2 own x 0..2 foreign nodes), then appends / removals on either list: both stay independent", "families": [{"initial_size": 0, "history_len": 5, "max_nodes": 4}, {"initial_size": 3, "history_len": 4, "max_nodes": 4}],
               "ops": OPS, "payloads": PAYLOADS, "long_runs": {"n": [3000], "payload": "all equal", "single_ops": 17, "combined": 1},
               "random": {"count": 2000, "len": "10..60", "max_nodes": 12, "payloads": "equal/distinct/two-valued"}},
-    "thorough": {"families": [{"initial_size": 0, "history_len": 6, "max_nodes": 3}, {"initial_size": 0, "history_len": 5, "max_nodes": 5},
+    "thorough": {
+        "other_list": "extend() with / construction from ANOTHER DoublyLinkedList (0..2 own x 0..2 foreign nodes), then appends / removals on either list: both stay independent", "families": [{"initial_size": 0, "history_len": 6, "max_nodes": 3}, {"initial_size": 0, "history_len": 5, "max_nodes": 5},
                               {"initial_size": 2, "history_len": 5, "max_nodes": 4}, {"initial_size": 3, "history_len": 4, "max_nodes": 5},
                               {"initial_size": 4, "history_len": 4, "max_nodes": 4}],
                  "ops": OPS, "payloads": PAYLOADS, "long_runs": {"n": [3000, 20000], "payload": "all equal", "single_ops": 17, "combined": 1},
@@ -91,6 +93,11 @@ def cases(tier, seed):
         for op in LONG_OPS:
             yield {"kind": "long-run", "init": n, "payloads": "equal", "ops": [op]}
         yield {"kind": "long-run", "init": n, "payloads": "equal", "ops": [list(o) for o in LONG_OPS]}
+    for how in ("extend", "construct"):
+        for na in ((0, 2) if how == "extend" else (0,)):
+            for nb in (0, 1, 2):
+                for then in (["b.append"], ["a.append", "b.append"], ["b.pop_front", "a.append"], ["a.pop_back", "b.append"]):
+                    yield {"kind": "other-list", "how": how, "na": na, "nb": nb, "then": then}
     rng = random.Random(seed)
     for _ in range(b["random"]["count"]):
         n, ops = rng.randint(0, 6), []
@@ -162,7 +169,51 @@ def _verify(l, ref, names, after, tag="dll"):
         raise Fail(f"{tag}/iteration", "list(l) = payloads of the sequence", {"after": after, "n": len(data)})
 
 
+def _walk(l, limit):
+    fw, x = [], l.head
+    while x is not None and len(fw) <= limit:
+        fw.append(x.data)
+        x = x.next_node
+    bw, x = [], l.tail
+    while x is not None and len(bw) <= limit:
+        bw.append(x.data)
+        x = x.prev_node
+    return fw, bw[::-1]
+
+
+def _run_other_list(case):
+    """a list extended with / constructed from ANOTHER DoublyLinkedList must not share nodes with it: later changes of either list stay local"""
+    try:
+        a_items, b_items = list(range(case["na"])), list(range(100, 100 + case["nb"]))
+        b = DoublyLinkedList(list(b_items)) if b_items else DoublyLinkedList()
+        if case["how"] == "extend":
+            a = DoublyLinkedList(list(a_items)) if a_items else DoublyLinkedList()
+            call("dll/other-list/extend", a.extend, b)
+        else:
+            a = call("dll/other-list/construct", DoublyLinkedList, b)[1]
+            a_items = []
+        exp_a, exp_b = a_items + b_items, list(b_items)
+        for step in case["then"]:
+            if step == "b.append":
+                b.append(555); exp_b.append(555)
+            elif step == "a.append":
+                a.append(777); exp_a.append(777)
+            elif step == "b.pop_front" and exp_b:
+                b.remove(b.head); exp_b.pop(0)
+            elif step == "a.pop_back" and exp_a:
+                a.remove(a.tail); exp_a.pop()
+            for nm, l, exp in (("a", a, exp_a), ("b", b, exp_b)):
+                fw, bw = _walk(l, len(exp) + 3)
+                check(fw == exp and bw == exp and len(l) == len(exp), "dll/other-list/independent",
+                      {"list": nm, "after": step, "items": exp}, {"forward": fw, "backward": bw, "len": len(l)})
+        return ok("dll/other-list")
+    except Fail as f:
+        return f.result
+
+
 def run_case(case):
+    if case.get("kind") == "other-list":
+        return _run_other_list(case)
     mode, ops, n0 = case["payloads"], case["ops"], case["init"]
     tag = "dll-long" if case["kind"] == "long-run" else "dll"
     cnt = [0]
